@@ -29,7 +29,7 @@ def sh_env():
     env['PYTHONDONTWRITEBYTECODE'] = '1'
     env.setdefault('XLCALCULATOR_VERIF', '1')
     if TIER[0] == 'thorough':
-        env['KT_SECOND_SOLVER'] = '1'      # KT obligations are re-decided by the system z3 binary
+        env['KT_SECOND_SOLVER'] = '1'      # KT obligations are re-decided by the system z3 4.8.12 binary and by the cvc5 binary
     return env
 
 
@@ -305,6 +305,9 @@ def write_evidence(prop, tier, seed, mod, names, obs, results, viol, inconc, kf_
             'functions_encoded': sorted(functions),
             'stubs': sorted(stubs),
             'second_solver_agreements': sum(int((results[n].get('second_solver') or {}).get('agree', 0)) for n in names),
+            'second_solver_agreements_z3_4_8_12': sum(int((results[n].get('second_solver') or {}).get('z3-4.8.12', 0)) for n in names),
+            'second_solver_agreements_cvc5': sum(int((results[n].get('second_solver') or {}).get('cvc5', 0)) for n in names),
+            'second_solver_inconclusive': sum(int((results[n].get('second_solver') or {}).get('inconclusive', 0)) for n in names),
             'second_solver_disagreements': sum(int((results[n].get('second_solver') or {}).get('disagree', 0)) for n in names),
             'translator_validation_cases': sum(int(results[n].get('translator_validation_cases') or 0) for n in names),
             'twins_run': len(twins), 'twins_violated': sum(1 for r in twins if r['twin'] == 'violated'),
